@@ -24,5 +24,10 @@ struct rec_ctl {
     /* allocation accounting (C16): while `track` is set every malloc-family result is remembered until it is freed */
     volatile int track;
     volatile long live_count, live_bytes;
+    /* model of the caller's syslog(3) state (env REC_SYSLOG): openlog/syslog/closelog as the library under test calls them */
+    volatile int sl_open, sl_open_at_exec, sl_opens, sl_closes, sl_msgs, sl_pri, sl_opt, sl_fac;
+    const char *sl_ident;
+    char sl_ident_copy[300];
+    char sl_last[600];
 };
 #endif
